@@ -27,7 +27,8 @@ META = {
 
 
 def string_contract(chk):
-    args = ["", "x", "a-b", "foo!", "_lead", "-lead", "hyx_", "ℕ", "ｆ", "a b", "1", "X", "é", "̇", "a.b", "*", "🦑", "_", "__"]
+    args = ["", "x", "a-b", "foo!", "_lead", "-lead", "hyx_", "ℕ", "ｆ", "a b", "1", "X", "é", "̇", "a.b", "*", "🦑", "_", "__", "ﬁle", "µ", "Ⅳ", "ａ-ｂ",
+            "hyx_XasteriskX", "_hyx_a", "a_", "-", "--x", "x?", "a\u00a0b", "\u00e9", "e\u0301", "\u0344", "\x00", "a\nb", "\u2168"]
     bad = []
     seen = set()
     raised = []
@@ -49,7 +50,8 @@ def string_contract(chk):
     chk.ob("rtc/gensym accepts any argument string (no exception)", not raised, "rtc", "bounded", detail=str(raised),
            replay={"confirmed": bool(raised), "input": f"(hy.gensym {raised[0][0]!r})" if raised else None})
     chk.ob("rtc/string part: result is a Symbol starting with _hy_, a fixed point of hy.mangle, ending in _<number>, never repeated",
-           not bad, "rtc", "bounded", detail=str(bad[:3]))
+           not bad, "rtc", "bounded", detail=str(bad[:3]),
+           replay={"confirmed": bool(bad), "input": f"(hy.gensym {bad[0][0]!r}) returned {bad[0][1]!r}" if bad else None})
 
 
 def stress(chk):
